@@ -1,0 +1,91 @@
+//go:build verif
+
+package cache
+
+// Contracts for the verification machinery in /verif (see /verif/DESIGN.md).
+// This file contains only comments; it is compiled to nothing.
+
+//@ prop C05
+
+// ---- trusted model of the file system and of the standard library used by get ----
+//@ immutable io.EOF, io.ErrUnexpectedEOF
+//@ axiom [sentinels] io.EOF != nil && io.ErrUnexpectedEOF != nil && io.EOF != io.ErrUnexpectedEOF
+
+// diskFile(name): the bytes of the file called name at the moment it is opened.
+//@ ghost diskFile(name string) []byte
+// rbytes(r): the bytes a freshly opened reader r will deliver.
+//@ ghost rbytes(r io.Reader) []byte
+
+//@ extern os.Open(name string) (f *os.File, err error)
+//@   ensures err == nil ==> f != nil && rbytes(f) == diskFile(name)
+
+// io.ReadFull reads exactly len(buf) bytes; fewer only at the end of the file, and then it
+// says so: io.EOF if nothing was read, io.ErrUnexpectedEOF otherwise.
+//@ extern io.ReadFull(r io.Reader, buf []byte) (n int, err error)
+//@   writes  buf
+//@   ensures 0 <= n && n <= len(buf) && n <= len(rbytes(r))
+//@   ensures forall i int :: {buf[i]} 0 <= i && i < n ==> buf[i] == rbytes(r)[i]
+//@   ensures err == nil ==> n == len(buf)
+//@   ensures err == io.EOF ==> n == 0
+//@   ensures err == io.ErrUnexpectedEOF ==> 0 < n && n < len(buf) && n == len(rbytes(r))
+
+// hexval(b): value of the hex digit b, -1 if b is not a hex digit
+//@ ghost hexval(b byte) int
+//@ axiom [hexval_range] forall b byte :: {hexval(b)} -1 <= hexval(b) && hexval(b) <= 15
+//@ extern encoding/hex.Decode(dst []byte, src []byte) (n int, err error)
+//@   writes  dst
+//@   ensures err == nil ==> n * 2 == len(src) && (forall k int :: {dst[k]} 0 <= k && k < n ==> hexval(src[2*k]) >= 0 && hexval(src[2*k+1]) >= 0 && dst[k] == hexval(src[2*k]) * 16 + hexval(src[2*k+1]))
+
+//@ ghost atoi(s string) int64
+//@ extern strconv.ParseInt(s string, base int, bitSize int) (v int64, err error)
+//@   ensures err == nil ==> v == atoi(s)
+
+//@ extern time.Unix(sec int64, nsec int64) time.Time
+//@   pure
+//@ extern errors.New(text string) error
+//@   ensures result != nil
+//@ extern fmt.Errorf(format string, a []any) error
+//@   ensures result != nil
+
+//@ func (*DiskCache).fileName
+//@   trusted
+//@   pure
+//@ func (*DiskCache).used
+//@   trusted
+
+// ---- TOP-1: strict parse of an index entry. For every content of the index file, get returns
+// success only if the file is exactly entrySize bytes, has the fixed layout, names the id that
+// was asked for, and then the entry it returns is what the bytes say. This covers every
+// truncation length and every corruption of an index file.
+//@ ghost entryBytes(c *DiskCache, id ActionID) []byte = diskFile(c.fileName(id, "a"))
+//@ func (*DiskCache).get
+//@   requires c != nil
+//@   abstract defer
+//@   ensures  [length] result1 == nil ==> len(entryBytes(c, id)) == entrySize
+//@   ensures  [layout] result1 == nil ==> entryBytes(c, id)[0] == 'v' && entryBytes(c, id)[1] == '1' && entryBytes(c, id)[2] == ' ' && entryBytes(c, id)[3+hexSize] == ' ' && entryBytes(c, id)[4+2*hexSize] == ' ' && entryBytes(c, id)[25+2*hexSize] == ' ' && entryBytes(c, id)[entrySize-1] == '\n'
+//@   ensures  [id]     result1 == nil ==> (forall k int :: {id[k]} 0 <= k && k < HashSize ==> id[k] == hexval(entryBytes(c, id)[3+2*k]) * 16 + hexval(entryBytes(c, id)[4+2*k]))
+//@   ensures  [out]    result1 == nil ==> (forall k int :: {result0.OutputID[k]} 0 <= k && k < HashSize ==> result0.OutputID[k] == hexval(entryBytes(c, id)[4+hexSize+2*k]) * 16 + hexval(entryBytes(c, id)[5+hexSize+2*k]))
+//@   ensures  [size]   result1 == nil ==> result0.Size >= 0
+//@   ensures  [miss]   result1 != nil ==> result0.Size == 0
+//@   loop 1   invariant 0 <= i && i <= len(esize)
+//@   loop 2   invariant 0 <= i && i <= len(etime)
+
+// ---- TOP-2: a data file is only handed out if it matches the index entry ----
+//@ extern crypto/sha256.Sum256(data []byte) [32]byte
+//@   pure
+//@ extern os.ReadFile(name string) (data []byte, err error)
+//@ ghost fileSize(name string) int64
+//@ extern (io/fs.FileInfo).Size() int64
+//@   pure
+//@ extern os.Stat(name string) (info fs.FileInfo, err error)
+//@   ensures err == nil ==> info != nil && info.Size() == fileSize(name)
+//@ extern (honnef.co/go/tools/lintcmd/cache.Cache).Get(id ActionID) (e Entry, err error)
+//@ extern (honnef.co/go/tools/lintcmd/cache.Cache).OutputFile(out OutputID) string
+//@   pure
+
+// GetBytes returns bytes only if their SHA-256 is the output id recorded in the index entry.
+//@ func GetBytes
+//@   ensures [checksum] result2 == nil ==> sha256.Sum256(result0) == result1.OutputID
+// GetFile returns a file name only if the file currently has the size recorded in the index entry.
+//@ func GetFile
+//@   ensures [size] err == nil ==> file == c.OutputFile(entry.OutputID) && fileSize(file) == entry.Size
